@@ -18,6 +18,25 @@ CHECKS = {
             'from-scratch computation. Exhaustive below the bound, sampled above it.',
             'hashlib.sha256; the cache source changes only at/above a truncated length.',
             'DESIGN.md §3 C12'),
+    'C13': ('exploration',
+            'Hypothesis-generated transactions/blocks with an independent serializer; round-trip, '
+            'all-prefix truncation, chunk-size metamorphic relation (same txs for every chunking)',
+            'Generated transactions around every varint-width boundary are round-tripped against '
+            'the harness\'s own serializer and hasher; every strict prefix must fail with an '
+            'exception iter_txs catches; generated blocks are streamed forwards and backwards for '
+            'chunk sizes placed at tx-size and block-size boundaries. Sampled, not exhaustive.',
+            'hashlib.sha256; chunk_size >= 9.',
+            'DESIGN.md §3 C13'),
+    'C20': ('exploration',
+            'bounded-exhaustive DFS over an environment automaton driving the real Notifications '
+            'object, plus Hypothesis deep walks; oracle = obligations ledger over hand-overs',
+            'All move sequences of the environment automaton (Appendix A) up to the depth bound '
+            'are enumerated against the real object and every hand-over is tracked until a '
+            'notification covers it; deeper sequences are sampled. Exhaustive within the bound and '
+            'the automaton; the automaton is an abstraction of the two calling loops.',
+            'The automaton is not larger than the real system (argued in DESIGN.md Appendix A); '
+            'tokens model script hashes.',
+            'DESIGN.md §3 C20, Appendix A'),
 }
 
 NOT_BUILT = {}
